@@ -85,6 +85,18 @@ def install(reg, src):
         return z3.If(K.is_kind(ra, "Variable"), z3.And(both_var, sp.name(a) == sp.name(b)),
                      z3.If(K.is_kind(ra, "Parameter"), z3.And(both_par, sp.name(a) == sp.name(b)), ra == rb))
 
+    # dynamic dispatch of == on an expression of unknown class: by the class table (Variable / Parameter by name, everything
+    # else by identity).  Classes that bring their own __eq__ are handled by the override lemma below.
+    @reg.contract("virtual:Expression.__eq__", props=["C14"])
+    def _(c):
+        sp = Spec(c.ip)
+        a = c.arg("self", T.expr())
+        b = c.arg("other")
+        if not isinstance(b, (Obj, Opaque)):
+            c.returns(lambda cc: False)
+            return
+        c.returns(lambda cc: SBool(pyeq(sp, a, b)))
+
     def same_kind_pair(c, sp, kind):
         if kind == "interior":
             a = c.arg("expr", T.expr())
@@ -143,3 +155,40 @@ def install(reg, src):
             c.assume(fval == sp.den(a, ENV, sp.PV))
             c.returns(T.none())
             c.ensures("stored callable is a correct answer for the equal key", lambda _r: fval == sp.den(b, ENV, sp.PV))
+
+        # ---- interior classes that define their own __eq__: the real method is executed (children compared through the
+        #      class table) and must not identify two trees with different denotations -- otherwise a closure memoised for
+        #      one of them is handed out for the other
+        own_eq = [k for k in src.expression_kinds() if k not in ("Variable", "Parameter")
+                  and "__eq__" in src.classes[k].methods]
+        for K_ in own_eq:
+            reg.mark_inline(src.classes[K_].methods["__eq__"].key)       # the override itself is executed, never summarised
+
+            def mk(K_=K_):
+                @reg.contract(f"lemma:memo:_compile_cached:own-eq:{K_}", props=["C14", "C12"])
+                def _(c):
+                    sp = Spec(c.ip)
+                    ip = c.ip
+                    a = c.arg("expr", T.obj(K_, exact=True))
+                    b = c.arg("expr2", T.obj(K_, exact=True))
+                    vi = c.arg("var_indices", T.custom(lambda ip_, h: fresh_var_indices(ip_)))
+                    IDX = index_term(vi)
+                    c.assume(sp.wf(a), sp.wf(b))
+                    c.returns(T.none())
+
+                    def body(cc):
+                        eq = ip.call_method(a, "__eq__", [b], {}, None)
+                        cc.eq_true = ip.truth(eq, f"{K_}.__eq__")
+                        return None
+                    c.synthetic_body = body
+
+                    def on_exit(cc, outcome, val):
+                        if outcome != "return" or not getattr(cc, "eq_true", False):
+                            return
+                        x, ENV = point_for(ip, IDX)
+                        ip.reg.saturate(ip)
+                        ip.path.oblige(ip.cur_oid(f"{K_}.__eq__ identifies only trees with the same denotation (at every point and "
+                                                  "parameter valuation)"),
+                                       sp.den(a, ENV, sp.PV) == sp.den(b, ENV, sp.PV), kind="post")
+                    c.on_exit.append(on_exit)
+            mk()
